@@ -259,12 +259,26 @@ def in_fork(fn, timeout):
     pid = os.fork()
     if pid == 0:
         os.close(r)
+        # a forked child inherits the generator states of the worker: every "fresh process" would replay the same
+        # random stream.  Give it what a really fresh interpreter has: state from OS entropy.
+        try:
+            import random as _random
+            _random.seed(os.urandom(16))
+            if "numpy" in sys.modules:
+                sys.modules["numpy"].random.seed(int.from_bytes(os.urandom(4), "little"))
+            if "torch" in sys.modules:
+                sys.modules["torch"].manual_seed(int.from_bytes(os.urandom(7), "little"))
+        except Exception:
+            pass
 
         def emit(msg):
             os.write(w, (json.dumps(msg) + "\n").encode())
         code = 0
         try:
             fn(emit)
+        except SystemExit as e:
+            # nessai's own signal handler ends the process with sys.exit(code)
+            code = e.code if isinstance(e.code, int) else 0
         except BaseException:
             code = 3
             try:
